@@ -27,6 +27,14 @@ CHECKS = {
                 ref="DESIGN.md 4/C04",
                 text="held on the generated histories of MultiplexHypergraph; exploration",
                 note="same trusted base as C01; 2-4 layer names"),
+    "C05": dict(tech="runtime monitoring: " + POST + " (subhypergraph, subhypergraph_by_orders, get_edges(subhypergraph=True), subhypergraph_largest_component, copy); expected selection recomputed from the source's public observation; source re-observed and re-hashed after each call",
+                ref="DESIGN.md 4/C05",
+                text="held on the explored sources (history end states with id gaps and metadata) x all enumerated selections; exploration",
+                note="sources <= 8 nodes; all node subsets only when <= 6 nodes"),
+    "C06": dict(tech="runtime monitoring: round-trip postcondition oracle on save_hypergraph/load_hypergraph (json + hgx) with non-mutation observation and independent record-level parse of the written file; generated .hgr files and HIF documents checked against their abstract content",
+                ref="DESIGN.md 4/C06",
+                text="held on the explored objects of all four types (history end states, replaced/cleared hypergraph metadata, isolated nodes) and on generated .hgr / HIF inputs; exploration",
+                note="labels int/str; user metadata avoids reserved keys; .hgr header single-space separated; HIF duplicate incidence sets checked for existence only"),
 }
 
 PENDING = {}
